@@ -1,0 +1,255 @@
+//! Verification hooks (cargo feature `verif`). Nothing in here is compiled
+//! unless the feature is enabled. The module provides a thread local event
+//! sink, an address to sequence id registry and a small set of switches the
+//! verification harness uses to steer the runtime (collection schedule,
+//! forced cache misses, instruction stepping).
+use std::cell::{Cell, RefCell};
+use std::collections::HashMap;
+use std::fmt::Write;
+
+/// How collections are triggered while the hooks are active
+#[derive(Clone, Debug, Default)]
+pub struct GcSchedule {
+  /// collect at every k-th managed allocation (0 = off)
+  pub every: u64,
+  /// collect at exactly these allocation numbers (counted from `start`)
+  pub at: Vec<u64>,
+  /// force every collection to sweep both generations
+  pub force_full: bool,
+  /// replace the initial threshold
+  pub next_gc: Option<usize>,
+}
+
+#[derive(Clone, Debug, Default)]
+pub struct Config {
+  /// event classes to record: "sched", "gc", "alloc", "exc", "step", "cache", "mod", "list", "root"
+  pub classes: Vec<String>,
+  /// upper bound on the number of recorded events
+  pub max_events: usize,
+  /// collection schedule
+  pub gc: GcSchedule,
+  /// make every inline cache probe miss
+  pub force_miss: bool,
+}
+
+struct State {
+  cfg: Config,
+  events: Vec<String>,
+  dropped: usize,
+  ids: HashMap<(u8, usize), u64>,
+  next_id: [u64; 8],
+  allocs: u64,
+  cls: [bool; 16],
+}
+
+thread_local! {
+  static ON: Cell<bool> = const { Cell::new(false) };
+  static FORCE_MISS: Cell<bool> = const { Cell::new(false) };
+  static STATE: RefCell<Option<State>> = const { RefCell::new(None) };
+}
+
+/// Event classes
+pub const SCHED: usize = 0;
+pub const GC: usize = 1;
+pub const ALLOC: usize = 2;
+pub const EXC: usize = 3;
+pub const STEP: usize = 4;
+pub const CACHE: usize = 5;
+pub const MODULE: usize = 6;
+pub const LIST: usize = 7;
+pub const ROOT: usize = 8;
+pub const PHASE: usize = 9;
+pub const NATIVE: usize = 10;
+
+const CLASS_NAMES: [&str; 11] = [
+  "sched", "gc", "alloc", "exc", "step", "cache", "mod", "list", "root", "phase", "native",
+];
+
+/// Id kinds
+pub const K_FIBER: u8 = 0;
+pub const K_CHANNEL: u8 = 1;
+pub const K_CLASS: u8 = 2;
+pub const K_OBJ: u8 = 3;
+pub const K_MODULE: u8 = 4;
+pub const K_FUN: u8 = 5;
+
+/// Begin recording with the provided configuration
+pub fn start(cfg: Config) {
+  let mut cls = [false; 16];
+  for (i, name) in CLASS_NAMES.iter().enumerate() {
+    cls[i] = cfg.classes.iter().any(|c| c == name);
+  }
+  FORCE_MISS.with(|f| f.set(cfg.force_miss));
+  STATE.with(|s| {
+    *s.borrow_mut() = Some(State {
+      cfg,
+      events: Vec::new(),
+      dropped: 0,
+      ids: HashMap::new(),
+      next_id: [0; 8],
+      allocs: 0,
+      cls,
+    })
+  });
+  ON.with(|on| on.set(true));
+}
+
+/// Stop recording and hand back the recorded events plus the number of
+/// events dropped because of the cap
+pub fn stop() -> (Vec<String>, usize) {
+  ON.with(|on| on.set(false));
+  FORCE_MISS.with(|f| f.set(false));
+  STATE.with(|s| match s.borrow_mut().take() {
+    Some(state) => (state.events, state.dropped),
+    None => (Vec::new(), 0),
+  })
+}
+
+/// Are the hooks currently recording
+#[inline]
+pub fn on() -> bool {
+  ON.with(|on| on.get())
+}
+
+/// Is this event class recorded
+#[inline]
+pub fn wants(class: usize) -> bool {
+  on() && STATE.with(|s| s.borrow().as_ref().map(|s| s.cls[class]).unwrap_or(false))
+}
+
+/// Should inline cache probes be forced to miss
+#[inline]
+pub fn force_miss() -> bool {
+  FORCE_MISS.with(|f| f.get())
+}
+
+/// Record an already rendered json object
+pub fn emit(class: usize, event: String) {
+  if !on() {
+    return;
+  }
+  STATE.with(|s| {
+    if let Some(state) = s.borrow_mut().as_mut() {
+      if !state.cls[class] {
+        return;
+      }
+      if state.cfg.max_events != 0 && state.events.len() >= state.cfg.max_events {
+        state.dropped += 1;
+      } else {
+        state.events.push(event);
+      }
+    }
+  })
+}
+
+/// The sequence id of an address, assigned at first sight
+pub fn id(kind: u8, addr: usize) -> u64 {
+  STATE.with(|s| match s.borrow_mut().as_mut() {
+    Some(state) => {
+      if let Some(id) = state.ids.get(&(kind, addr)) {
+        return *id;
+      }
+      let id = state.next_id[kind as usize];
+      state.next_id[kind as usize] += 1;
+      state.ids.insert((kind, addr), id);
+      id
+    },
+    None => 0,
+  })
+}
+
+/// Assign a fresh sequence id to an address, the entity at this address was just created
+pub fn fresh(kind: u8, addr: usize) -> u64 {
+  STATE.with(|s| match s.borrow_mut().as_mut() {
+    Some(state) => {
+      let id = state.next_id[kind as usize];
+      state.next_id[kind as usize] += 1;
+      state.ids.insert((kind, addr), id);
+      id
+    },
+    None => 0,
+  })
+}
+
+/// Is this address known to the registry
+pub fn known(kind: u8, addr: usize) -> Option<u64> {
+  STATE.with(|s| {
+    s.borrow()
+      .as_ref()
+      .and_then(|state| state.ids.get(&(kind, addr)).copied())
+  })
+}
+
+/// Forget an address, the entity was released
+pub fn forget(kind: u8, addr: usize) -> Option<u64> {
+  STATE.with(|s| {
+    s.borrow_mut()
+      .as_mut()
+      .and_then(|state| state.ids.remove(&(kind, addr)))
+  })
+}
+
+/// What the allocator should do at this allocation
+#[derive(Clone, Copy, Debug, PartialEq, Eq)]
+pub enum GcDecision {
+  /// Use the allocator's own trigger
+  Default,
+  /// Collect now
+  Collect,
+}
+
+/// Count an allocation and decide if the schedule asks for a collection
+pub fn gc_decision() -> GcDecision {
+  if !on() {
+    return GcDecision::Default;
+  }
+  STATE.with(|s| match s.borrow_mut().as_mut() {
+    Some(state) => {
+      state.allocs += 1;
+      let n = state.allocs;
+      let gc = &state.cfg.gc;
+      if (gc.every != 0 && n % gc.every == 0) || gc.at.contains(&n) {
+        GcDecision::Collect
+      } else {
+        GcDecision::Default
+      }
+    },
+    None => GcDecision::Default,
+  })
+}
+
+/// The number of allocations counted so far
+pub fn alloc_count() -> u64 {
+  STATE.with(|s| s.borrow().as_ref().map(|s| s.allocs).unwrap_or(0))
+}
+
+/// Should every collection sweep both generations
+pub fn gc_force_full() -> bool {
+  on() && STATE.with(|s| s.borrow().as_ref().map(|s| s.cfg.gc.force_full).unwrap_or(false))
+}
+
+/// The initial collection threshold override
+pub fn gc_next_gc() -> Option<usize> {
+  STATE.with(|s| s.borrow().as_ref().and_then(|s| s.cfg.gc.next_gc))
+}
+
+/// Escape a string for inclusion in a json document
+pub fn json_str(s: &str) -> String {
+  let mut out = String::with_capacity(s.len() + 2);
+  out.push('"');
+  for c in s.chars() {
+    match c {
+      '"' => out.push_str("\\\""),
+      '\\' => out.push_str("\\\\"),
+      '\n' => out.push_str("\\n"),
+      '\r' => out.push_str("\\r"),
+      '\t' => out.push_str("\\t"),
+      c if (c as u32) < 0x20 => {
+        let _ = write!(out, "\\u{:04x}", c as u32);
+      },
+      c => out.push(c),
+    }
+  }
+  out.push('"');
+  out
+}
